@@ -269,7 +269,15 @@ def handleC13 (toks : List String) : String :=
         let (acc, i) := p
         let (s, res) := so
         match acc.st with
-        | none => (check i acc none none res s.observe, i + 1)
+        | none =>
+          -- outside the model only what the property says of every operation applies: no assignment other than
+          -- to href throws (an assignment that would make the URL unparsable is ignored)
+          let acc := match s.op, (splitRes res).1 with
+            | .set .href _, _ => acc
+            | .set _ _, some tok | .setPort _, some tok =>
+              { acc with msgs := acc.msgs ++ [s!"SPECFAIL step {i}: an assignment threw instead of being ignored: {tok}"] }
+            | _, _ => acc
+          (check i acc none none res s.observe, i + 1)
         | some st =>
           match step st s.op with
           | .ok st' => (check i acc none (some st') res s.observe, i + 1)
